@@ -122,6 +122,30 @@ func runRPC(t *testing.T, rc *core.RunCtx, prop string) {
 		warm = 105 + tp.Draw(40)
 	}
 	rops := genOps(tp.Range(0, 5), true, "r")
+	// with a partial list, half of the time the last local change reaches a
+	// synchronised state only through a relation of an unsynchronised one
+	if listKind != "" && nUser >= 2 && tp.Draw(2) == 0 {
+		hidden, shown := -1, -1
+		for j, u := range user {
+			tr := (listKind == "allow") == has(subset, u)
+			if tr && shown < 0 {
+				shown = j
+			}
+			if !tr && hidden < 0 {
+				hidden = j
+			}
+		}
+		if hidden >= 0 && shown >= 0 {
+			st := uschema[user[hidden]]
+			st.Add = am.S{user[shown]}
+			st.Remove = nil
+			uschema[user[hidden]] = st
+			sh := uschema[user[shown]]
+			sh.Remove, sh.Add = nil, nil
+			uschema[user[shown]] = sh
+			lops = append(lops, rpcOp{kind: 0, states: []int{hidden}, id: fmt.Sprintf("l%d", len(lops))})
+		}
+	}
 	// faults
 	type fault struct {
 		kind string
